@@ -86,7 +86,8 @@ TInit ==
   /\ up = [t \in T |-> NoUp]
   /\ flag = FALSE
   /\ obs = NoObs
-  /\ nCfg = 0 /\ nReq = 0 /\ nEnv = 0
+  /\ cpc = "idle" /\ pend = {} /\ okSince = {}      \* the cycles are not seen; okSince runs from one
+  /\ nCfg = 0 /\ nReq = 0 /\ nEnv = 0               \* quiescent point to the next (AlwaysAccumulate)
   /\ marks = {}
   /\ lastChange = "none"
   /\ staleItems = SetOf(Traces[tid][1].so)
@@ -179,7 +180,9 @@ TBlock == UNCHANGED anyRemove /\ IsEv("block") /\ SetBlockCfg(Rec.u, SetOf(Rec.f
 TExcluded == UNCHANGED anyRemove /\ IsEv("excluded") /\ SetExcludedCfg(PhrasesOf(Rec.ps)) /\ IndexFromLog /\ UNCHANGED lastChange /\ Judge({})
 
 Keep == UNCHANGED <<shared, mode, dusers, holder, owner, friends, blocked, excluded, nCfg, nReq, nEnv, lastChange,
-                   staleItems, anyRemove>>
+                   staleItems, anyRemove, cpc, pend>>
+\* the recorded steps that are not design-spec actions keep okSince the way those do
+Acc == okSince' = okSince \cup EntPairs
 KeepUsr == UNCHANGED <<ctxFriends, ctxBlocked, winFriends, winUnblk>>
 
 \* the user-management job reported a difference (one record per event class; each half of the
@@ -193,14 +196,14 @@ TTick ==
         /\ ctxBlocked' = blocked /\ winUnblk' = {u \in Users : "up" \notin blocked[u]}
         /\ UNCHANGED <<ctxFriends, winFriends>>
   /\ flag' = TRUE /\ obs' = NoObs
-  /\ Keep /\ UNCHANGED up /\ Judge({})
+  /\ Keep /\ Acc /\ UNCHANGED up /\ Judge({})
 
 \* ---- replies ----
 TListing ==
   /\ IsEv("search") \/ IsEv("shares") \/ IsEv("dir")
   /\ obs' = [k |-> Rec.ev, u |-> Rec.u, replied |-> Rec.replied,
              normal |-> SetOf(Rec.normal), locked |-> SetOf(Rec.locked)]
-  /\ Keep /\ KeepUsr /\ UNCHANGED <<up, flag>>
+  /\ Keep /\ KeepUsr /\ Acc /\ UNCHANGED <<up, flag>>
   \* every listed name is one of the files of the tree
   /\ Judge(IF Rec.other = 0 THEN {} ELSE {Rec.ev \o "-reply:lists-unknown-name"})
 
@@ -213,19 +216,19 @@ Known(r) == Key(r) \in T
 TChangeBegins ==
   /\ IsEv("scanstart") \/ IsEv("scandirstart")
   /\ flag' = TRUE /\ obs' = NoObs
-  /\ Keep /\ KeepUsr /\ UNCHANGED up /\ Judge({})
+  /\ Keep /\ KeepUsr /\ Acc /\ UNCHANGED up /\ Judge({})
 
 \* markers: a request was sent / the peer did its part; they explain what follows, no more
 TMarker ==
   /\ IsEv("req") \/ IsEv("env") \/ IsEv("pause")
   /\ obs' = NoObs
-  /\ Keep /\ KeepUsr /\ UNCHANGED <<up, flag>> /\ Judge({})
+  /\ Keep /\ KeepUsr /\ Acc /\ UNCHANGED <<up, flag>> /\ Judge({})
 
 \* TransferAddedEvent for an upload
 TCreated ==
   /\ IsEv("created")
   /\ obs' = NoObs
-  /\ Keep /\ KeepUsr /\ UNCHANGED flag
+  /\ Keep /\ KeepUsr /\ Acc /\ UNCHANGED flag
   /\ IF Known(Rec) /\ up[Key(Rec)].st = "NONE"
        THEN /\ Put(Key(Rec), "VIRGIN", "none")
             \* the record's local path is the file the remote path names
@@ -239,7 +242,7 @@ TCreated ==
 TState ==
   /\ IsEv("st")
   /\ obs' = NoObs
-  /\ Keep /\ KeepUsr /\ UNCHANGED flag
+  /\ Keep /\ KeepUsr /\ Acc /\ UNCHANGED flag
   /\ IF Known(Rec) /\ up[Key(Rec)].st # "NONE"
        THEN /\ Rec.new \in UpStates \ {"NONE"} /\ Rec.reason \in Reasons
             /\ up' = [up EXCEPT ![Key(Rec)] = [st |-> Rec.new, reason |-> Rec.reason,
@@ -252,7 +255,7 @@ TState ==
 TAbortCall ==
   /\ IsEv("abort")
   /\ obs' = NoObs
-  /\ Keep /\ KeepUsr /\ UNCHANGED flag
+  /\ Keep /\ KeepUsr /\ Acc /\ UNCHANGED flag
   /\ IF Known(Rec)
        THEN up' = [up EXCEPT ![Key(Rec)].ua = @ \/ up[Key(Rec)].st \in {"QUEUED", "INITIALIZING", "UPLOADING", "PAUSED"}]
        ELSE UNCHANGED up
@@ -262,7 +265,7 @@ TAbortCall ==
 TError ==
   /\ IsEv("error")
   /\ obs' = NoObs
-  /\ Keep /\ KeepUsr /\ UNCHANGED <<up, flag>>
+  /\ Keep /\ KeepUsr /\ Acc /\ UNCHANGED <<up, flag>>
   /\ Judge({"exception:" \o Rec.what})
 
 \* PeerTransferQueueFailed / PeerTransferReply seen by the peer
@@ -271,7 +274,7 @@ TReply ==
   /\ obs' = IF Known(Rec) THEN [k |-> Rec.ev, u |-> Rec.u, p |-> <<Rec.f, Rec.d, Rec.v>>,
                                allowed |-> Rec.allowed, why |-> Rec.why]
             ELSE NoObs
-  /\ Keep /\ KeepUsr /\ UNCHANGED <<up, flag>>
+  /\ Keep /\ KeepUsr /\ Acc /\ UNCHANGED <<up, flag>>
   \* nothing that names no file of a shared directory is ever granted
   /\ Judge(IF ~Known(Rec) /\ Rec.allowed THEN {Rec.ev \o ":granted:path-names-no-shared-file"} ELSE {})
 
@@ -279,7 +282,7 @@ TReply ==
 TOffer ==
   /\ IsEv("offer")
   /\ obs' = NoObs
-  /\ Keep /\ KeepUsr /\ UNCHANGED <<up, flag>>
+  /\ Keep /\ KeepUsr /\ Acc /\ UNCHANGED <<up, flag>>
   /\ Judge(IF Known(Rec) /\ up[Key(Rec)].st \in {"INITIALIZING", "UPLOADING"} THEN {}
            ELSE {"offer:upload-not-under-way"})
 
@@ -287,7 +290,7 @@ TOffer ==
 TBytes ==
   /\ IsEv("bytes")
   /\ obs' = IF Known(Rec) THEN [k |-> "bytes", u |-> Rec.u, p |-> <<Rec.f, Rec.d, Rec.v>>] ELSE NoObs
-  /\ Keep /\ KeepUsr /\ UNCHANGED <<up, flag>>
+  /\ Keep /\ KeepUsr /\ Acc /\ UNCHANGED <<up, flag>>
   /\ Judge(IF Known(Rec) THEN {} ELSE {"bytes:no-known-upload"})
 
 \* The recorder let the user-management job and the management job run after the last change.
@@ -306,6 +309,7 @@ TQuiescent ==
   /\ winFriends' = friends /\ winUnblk' = {u \in Users : "up" \notin blocked[u]}
   /\ flag' = FALSE
   /\ obs' = NoObs
+  /\ okSince' = {}
   /\ Keep
   /\ Judge((IF ctxFriends = friends /\ ctxBlocked = blocked THEN {}
             ELSE {"quiescent:settings-change-never-reported"})
